@@ -164,6 +164,12 @@ def run_mul(case):
     try:
         s = _impl["SS"](core.scheme_float(B, T, unit))
         k = num if den == 1 and num % 2 == 1 else num / den        # odd integer factors as int, the others as float
+        # the factor as numpy delivers it (a subclass of float), or as a bool (a subclass of int) for the factor 1
+        if case.get("ff") == 1:
+            import numpy as np
+            k = np.float64(num / den)
+        elif case.get("ff") == 2 and num == den:
+            k = True
         nick_before = s.get_nickname()          # history: the nickname of the original has been asked
         a = s * k
         b = k * s
@@ -216,7 +222,7 @@ def mul_cases(rng, schemes, n_pairs=3):
             for _ in range(n_pairs):
                 D = ac.random_dataset(rng, 5, 4)
                 pairs.append([D, random_order(rng, grids.universe(D))])
-            out.append({"op": "mul", "sch": [B, T, unit], "num": num, "den": den, "pairs": pairs})
+            out.append({"op": "mul", "sch": [B, T, unit], "num": num, "den": den, "pairs": pairs, "ff": len(out) % 3})
     return out
 
 
@@ -269,6 +275,23 @@ def equiv_cases(rng, n):
     return [{"op": "equiv", "s1": s, "others": S} for s in S]
 
 
+def multiples_cases(rng):
+    """integer multiples by 3, 7, 49, 98, 147 of dyadic schemes (1/49*49 is not 1 in floating point, the quotients of
+    exact multiples are the same double), next to near-multiples"""
+    out = []
+    for (B, T, u) in list(ac.PRESET) + ac.grid_sample(rng, 10):
+        fam = [[[k * b for b in B], [k * t for t in T], u] for k in (1, 3, 7, 49, 98, 147)]
+        T2 = list(T)
+        T2[5] += 1
+        fam.append([[49 * b for b in B], [49 * t for t in T2], u])
+        B2 = [49 * b for b in B]
+        B2[2] += 1
+        fam.append([B2, [49 * t for t in T], u])
+        fam = [s for s in fam if core.valid_scheme(s[0], s[1])]
+        out += [{"op": "equiv", "s1": s, "others": fam} for s in fam]
+    return out
+
+
 def _nt(rec):
     return True
 
@@ -286,4 +309,5 @@ def stages(tier, rng, only=None):
                      _init))
     out.append(Stage("equiv", "Trace_Scheme", run_equiv, lambda: equiv_cases(rng, 120 if tier == "quick" else 300),
                      _nt, _init))
+    out.append(Stage("equiv_odd_multiples", "Trace_Scheme", run_equiv, lambda: multiples_cases(rng), _nt, _init))
     return [s for s in out if not only or s.name == only]
